@@ -328,13 +328,14 @@ pub fn explore_plans(prop: &'static str, tier: Tier, reporter: &Reporter, ev: &m
     let delta: usize = match (prop, tier) {
         ("C03", _) => 2,
         ("C06", Tier::Thorough) => 1,
-        ("C08", Tier::Quick) => 1,
+        ("C08", _) => 1,
         ("C09", _) => 1,
         ("C14", Tier::Quick) => 2,
-        ("C14", Tier::Thorough) => 1,
+        ("C14", Tier::Thorough) => 2,
         ("C16", _) => 2,
         ("C17", _) => 1,
-        ("C19", _) => 1,
+        ("C19", Tier::Quick) => 1,
+        ("C19", Tier::Thorough) => 2,
         ("C20", _) => 1,
         _ => 0,
     };
